@@ -1223,6 +1223,7 @@ theorem step_inv {s s' : St} {h u : Nat} {op : Op} (hi : Inv s) (hs : step h u s
     · rw [m.pend, m.sent, m.charged]; exact hi.ledger i
     · rw [m.allTime, m.charged]; exact hi.allTime i
     · rw [m.burned, m.burnedSum]; exact hi.burned i
+  | foreign k a amt => cases hs
 
 theorem run_inv {s : St} (hi : Inv s) (ops : List (Nat × Nat × Op)) : Inv (run s ops) := by
   induction ops generalizing s with
@@ -1292,6 +1293,7 @@ theorem trio_counters_step {s s' : St} {h u : Nat} {op : Op} (hs : step h u s op
   | updateConfig o c f t r =>
     obtain ⟨_, m, _⟩ := updateConfig_spec hs
     rw [m.allTime, m.burned, m.charged, m.burnedSum, m.sup]; simp
+  | foreign k a amt => cases hs
 
 /-- C07 `collect_exact`: a collection sends exactly the pending entries above the threshold, to the
     configured collector only, zeroes exactly those entries, and leaves every reserve
